@@ -7,9 +7,9 @@ from harness.common import cz, cq, cnat, cbool, clist, ctup, import_aa, frac, ex
 ID = "C17"
 GEN = []
 PROPS = "Props/C17.v"
-COQ_CHECK = ("Model.C17", "check")
+COQ_CHECK = ("Model.C17x", "checkx")
 COQ_FALLBACK = None
-COQ_IMPORTS = "From PAV Require Import Base.NumOps."
+COQ_IMPORTS = "From PAV Require Import Base.NumOps Model.C17.\nNotation case := casex (only parsing)."      # the wrapped cases of Model/C17x.v
 SHARD = 120
 RULE = ("profile objects are generated classes whose methods are decorated with aa.grid_dec.to_array / to_grid / to_vector_yx / "
         "project_grid / relocate_to_radial_minimum / transform (alone and stacked to_X(transform(relocate(f))), also with a nested "
@@ -281,6 +281,11 @@ def upscaled(sparse, f, ps):
     return [[F(y) + psy / 2 - j * (psy / f) - psy / f / 2, F(x) - psx / 2 + i * (psx / f) + psx / f / 2]
             for y, x in sparse for j in range(f) for i in range(f)]
 def mro_names(obj): return [c.__name__ for c in type(obj).__mro__]
+def c_mro(aa, obj):
+    """the MRO of the object's class as the Coq model sees it: the four classes the decorators test for (by identity), NOther for the rest"""
+    names = {aa.Grid2D: "NGrid2D", aa.Grid2DIrregular: "NGrid2DIrregular", aa.Grid1D: "NGrid1D", np.ndarray: "NNdarray"}
+    return clist([names.get(c, "NOther") for c in type(obj).__mro__])
+def k_obj(mros, term): return f"(KObj {clist(mros)} {term})"
 def is_a(obj, name): return name in mro_names(obj)
 def base_name(obj):
     """the accepted class the object is an instance of (first hit along its MRO)"""
@@ -645,7 +650,7 @@ def shape_case(aa, ci, grid, sh):
     if ci["op"] == "project" and sh["k"] in ("mask", "2d", "2dnat"):
         c0 = [F(0), F(0)] if ci["centre"] in (None, "absent") else fr2(ci["centre"])
         n = grid.grid_2d_radial_projected_shape_slim_from(centre=(float(c0[0]), float(c0[1])))
-        return [f"(KShape {c_mask2(pm2(sh))} {c_pt(c0)} {cz(int(n))})"]
+        return [k_obj([], f"(KShape {c_mask2(pm2(sh))} {c_pt(c0)} {cz(int(n))})")]
     return []
 
 def kind_of(ci, sh): return ci["op"] + ":" + sh["k"] + (":" + ci["dec"] if "dec" in ci else "")
@@ -668,7 +673,7 @@ def run_case(inp):
         return {"coq": None, "out": {"stored": [[str(a), str(b)] for a, b in stored_of(grid)][:12]}, "py_ok": False, "kind": "construct:" + g["k"],
                 "nontrivial": True, "detail": "the constructed / derived grid does not store the requested contents (" + variant_full(g) + ")"}
     d = do_call(aa, inp, grid, sh)
-    res = {"coq": k_term(d["parts"], sh), "extra_coq": shape_case(aa, inp, grid, sh),
+    res = {"coq": k_obj([c_mro(aa, grid)], k_term(d["parts"], sh)), "extra_coq": shape_case(aa, inp, grid, sh),
            "out": {"seen": [[str(a), str(b)] for a, b in d["seen"]][:12], "result": summarize(d["out"]), "notes": d["notes"]},
            "py_ok": d["py_ok"] if not (d["raised"] and d["py_ok"]) else None, "kind": kind_of(inp, sh) + variant(g),
            "nontrivial": len(d["seen"]) >= 2}
@@ -738,7 +743,7 @@ def run_hist(aa, inp):
         outs.append({"seen": [[str(a), str(b)] for a, b in d["seen"]][:8], "result": summarize(d["out"]), "notes": d["notes"]})
     if not ncalls:
         return {"coq": None, "out": "skipped: every call within 1e-3 of the radial minimum", "py_ok": None, "kind": "hist:skipped", "nontrivial": False}
-    coq = f"(KHist {cz(e)} {clist([c_gspec(s) for s in shs0])} {clist(steps)})"
+    coq = k_obj([c_mro(aa, o) for o in objs], f"(KHist {cz(e)} {clist([c_gspec(s) for s in shs0])} {clist(steps)})")
     res = {"coq": coq, "out": outs[:4], "py_ok": py_ok, "nontrivial": True,
            "kind": "hist:" + "/".join(s["k"] + variant(g) for s, g in zip(shs0, inp["grids"])) + ("/fed" * (len(shs0) - len(inp["grids"])))
                    + ("@2^%d" % e if e else "")}
@@ -995,6 +1000,13 @@ def rand_hist(rng, e=0, kinds=("mask", "2d", "irr", "1d", "raw"), force_native1d
         else: g1["cs"] = pts(rng, len(g0["cs"]) if "cs" in g0 else n_coords(g0))
         if g0.get("dtype") == "int": g1 = as_int(rng, g1)
         grids.append(g1)
+    elif rng.random() < 0.4:
+        # a grid of ANOTHER kind / class / storage served by the same profile objects and methods (whatever a profile object or a
+        # decorated method remembers from the previous call must not leak into the next one)
+        g1 = rand_grid(rng, kinds=tuple(k for k in kinds if k != g0["k"]) or kinds, pts=pts)
+        if g1["k"] == "1d" and rng.random() < 0.5: g1 = native_1d(rng, g1)
+        else: g1 = add_variant(rng, g1, native2d=rng.random() < 0.3, p_plain=0.5)
+        grids.append(add_sub(rng, g1))
     steps = []
     ncall = rng.randint(min_calls, 4)
     for c in range(ncall):
